@@ -4,7 +4,10 @@ import GdVerif.Run.Gs3
 import GdVerif.Spec.Gs3
 /-
   Generator of GameSpy 3 server states and wire layouts (mostly valid, boundary-heavy; a share of
-  semantically broken states, tagged NOTWF by the SPEC's own `wf`).
+  semantically broken states, tagged NOTWF by the SPEC's own `wfX`).  Two cases in three carry field
+  sections the client has no place for (`Spec.Extra`: `kills_`, `time_on_`, `clan_`, `honor_t` … at
+  random positions of the layout, values with underscores and values that are typed field names);
+  the tag `THM` says whether the case lies inside the domain of `C04_gs3_query_extra` (`wfX`).
 -/
 namespace Gd.Run
 open Gd Gd.Gs3 Gd.Gs3.Spec
@@ -72,17 +75,58 @@ def gTableSlices (team : Bool) (fields : List Bytes) (n : Nat) : G (List Slice) 
       fs.mapM (fun f => do pure (⟨← gMarkers, team, f, start, len⟩ : Slice)))
     pure per.flatten
 
-/-- pack slices into packets greedily by size, with random extra cuts -/
-def gPack (st : State) (first : Nat) (slices : List Slice) : G (List (List Slice)) := do
+/-! field sections the client has no place for -/
+
+instance : Inhabited Extra := ⟨⟨[], [], 0, []⟩⟩
+
+def gExtraName : G Bytes := do
+  let n ← G.oneOf ["kills_", "time_on_", "clan_", "rank_", "honor_t", "k_d_ratio_", "x_", "AIBot_", "deaths2_",
+    "players_", "teamname_t", "_", "pings", "skill2_t", "scoreboard_", "Score_", "pid2_"]
+  pure (asciiBytes n)
+
+def gExtraValue : G Bytes := do
+  let c ← G.below 4
+  if c == 0 then gStrNE 12
+  else do
+    let v ← G.oneOf ["7", "red_devils", "a_b_c", "x", "-1", "[TAG] name", "score", "team_rocket", "ping_", "player",
+      "1_t", "_", "9_", "team_t", "score_t", "pid", "0", "deaths_x", "skill"]
+    pure (asciiBytes v)
+
+/-- an allowed extra section: any marker bytes, any row offset a byte can hold (continuations at rows
+3 … 255 included), 0 … 28 values -/
+def gGs3Extra (rows : Nat) : G Extra := do
+  let markers ← gMarkers
+  let name ← gExtraName
+  let offset ← G.oneOf [0, 0, 0, 1, 2, 3, 20, 0x70, 127, 128, 200, 255]
+  let nv ← G.oneOf [0, 1, 2, 4, rows]
+  let values ← G.listOf (min nv 28) gExtraValue
+  pure ⟨markers, name, offset, values⟩
+
+/-- put `k` extra sections at random positions among the sections -/
+def gInsertExtras (rows : Nat) : Nat → List Section → G (List Section)
+  | 0, ss => pure ss
+  | k + 1, ss => do
+    let e ← gGs3Extra rows
+    let pos ← G.below (ss.length + 1)
+    gInsertExtras rows k (ss.take pos ++ [.extra e] ++ ss.drop pos)
+
+/-- pack sections into packets greedily by size, with random extra cuts -/
+def gPack (st : State) (first : Nat) (sections : List Section) : G (List (List Section)) := do
   let budget ← G.oneOf [1900, 1900, 600, 300, 120]
-  let rec go (cur : List Slice) (size : Nat) (acc : List (List Slice)) (isFirst : Bool) : List (Slice × Bool) → List (List Slice)
+  let rec go (cur : List Section) (size : Nat) (acc : List (List Section)) (isFirst : Bool) : List (Section × Bool) → List (List Section)
     | [] => (acc ++ [cur])
     | (sl, cut) :: r =>
-      let l := (encSlice st sl).length
+      let l := (encSection st sl).length
       if (size + l > budget || cut) && (isFirst || !cur.isEmpty) then go [sl] l (acc ++ [cur]) false r
       else go (cur ++ [sl]) (size + l) acc isFirst r
-  let flagged ← slices.mapM (fun sl => do let c ← G.chance 1 12; pure (sl, c))
+  let flagged ← sections.mapM (fun sl => do let c ← G.chance 1 12; pure (sl, c))
   pure (go [] first [] true flagged)
+
+/-- apply `f` to every slice of the layout -/
+def mapSlices (f : Slice → Slice) (cfg : ConfigX) : ConfigX :=
+  { cfg with layout := cfg.layout.map fun ss => ss.map fun
+      | .slice sl => .slice (f sl)
+      | .extra e => .extra e }
 
 def gChallengeInt : G Int := do
   let c ← G.below 10
@@ -96,23 +140,37 @@ def gChallengeInt : G Int := do
   | _ => G.int 32
 
 /-- semantic damage: states outside the specification's domain (tagged NOTWF) -/
-def gDamage (cfg : Config) (st : State) : G (Config × State) := do
-  let c ← G.below 11
+def gDamage (cfg : ConfigX) (st : State) : G (ConfigX × State) := do
+  let c ← G.below 14
   match c with
   | 0 => pure (cfg, { st with vars := st.vars.drop 1 })
   | 1 => pure (cfg, { st with vars := st.vars.map fun p => if p.1 == asciiBytes "maxplayers" then (p.1, asciiBytes "x1") else p })
   | 2 => pure (cfg, { st with players := st.players.map fun p => { p with name := [] } })
   | 3 => pure ({ cfg with layout := cfg.layout.map fun ss => ss.drop 1 }, st)
-  | 4 => pure ({ cfg with layout := cfg.layout.map fun ss => ss.map fun sl => { sl with field := asciiBytes "kills" } }, st)
+  | 4 => pure (mapSlices (fun sl => { sl with field := asciiBytes "kills" }) cfg, st)
   | 5 => pure (cfg, { st with vars := st.vars ++ [(asciiBytes "password", asciiBytes "maybe")] })
-  | 6 => pure ({ cfg with layout := cfg.layout.map fun ss => ss.map fun sl => { sl with offset := sl.offset + 1 } }, st)
+  | 6 => pure (mapSlices (fun sl => { sl with offset := sl.offset + 1 }) cfg, st)
   | 7 => pure ({ cfg with challenge := 2147483648 }, st)
   -- sections that end exactly at / run past the last row number a byte can address (255)
-  | 8 => pure ({ cfg with layout := cfg.layout.map fun ss => ss.map fun sl => { sl with offset := 256 - sl.count } }, st)
-  | 9 => pure ({ cfg with layout := cfg.layout.map fun ss => ss.map fun sl => { sl with offset := 255 } }, st)
+  | 8 => pure (mapSlices (fun sl => { sl with offset := 256 - sl.count }) cfg, st)
+  | 9 => pure (mapSlices (fun sl => { sl with offset := 255 }) cfg, st)
+  -- sections that are NOT allowed extra sections: a typed first segment with a foreign suffix, an empty
+  -- value in the middle, a name made of a marker byte
+  | 10 => do
+    let bad ← G.oneOf [(⟨[], asciiBytes "score_total_", 0, [asciiBytes "7"]⟩ : Extra),
+      ⟨[1], asciiBytes "clan_", 0, [asciiBytes "a", [], asciiBytes "ping_"]⟩,
+      ⟨[], asciiBytes "team_name_", 1, [asciiBytes "red"]⟩,
+      ⟨[], [2], 0, [asciiBytes "kills_"]⟩,
+      ⟨[], asciiBytes "ping_x", 0, []⟩]
+    let pk ← G.below cfg.layout.length
+    pure ({ cfg with layout := (List.range cfg.layout.length).zip cfg.layout |>.map fun (i, ss) =>
+      if i == pk then .extra bad :: ss else ss }, st)
+  | 11 => pure ({ cfg with layout := cfg.layout.map fun ss => ss.map fun
+      | .extra e => .extra { e with offset := 256 }
+      | s => s }, st)
   | _ => pure ({ cfg with layout := cfg.layout ++ [[]] }, st)
 
-def gGs3Case : G (Config × State) := do
+def gGs3Case : G (ConfigX × State) := do
   -- 255 / 256 rows: the largest tables a one-byte row offset can address (sections then end at row 255)
   let np ← G.oneOf [0, 1, 1, 2, 3, 5, 5, 12, 12, 33, 64, 64, 255, 256]
   let nt ← G.oneOf [0, 0, 1, 2, 3, 8]
@@ -130,9 +188,11 @@ def gGs3Case : G (Config × State) := do
   let ts ← gTableSlices true teamFields nt
   let teamsFirst ← G.chance 1 5
   let slices := if teamsFirst then ts ++ ps else ps ++ ts
-  let layout ← gPack st (encVars vars).length slices
+  let nx ← G.oneOf [0, 0, 1, 1, 2, 3, 6]
+  let sections ← gInsertExtras np nx (slices.map .slice)
+  let layout ← gPack st (encVars vars).length sections
   let unknown ← G.listOf layout.length (G.oneOf [0, 0, 1, 2, 0xFF, 0x41])
-  let cfg : Config := ⟨← gChallengeInt, layout, unknown⟩
+  let cfg : ConfigX := ⟨← gChallengeInt, layout, unknown⟩
   let damage ← G.chance 1 10
   if damage then gDamage cfg st else pure (cfg, st)
 
@@ -144,12 +204,16 @@ def genGs3 (seed n : Nat) : List String :=
     let retries := k % 3
     let vars := k % 4 == 3
     let entry := if vars then "gs3vars" else "gs3"
-    let line := s!"g{seed}_{k} {entry} {port} {retries} {showScript (Spec.script cfg st)}"
-    let wf := if Spec.wf cfg st then "" else " NOTWF"
+    let line := s!"g{seed}_{k} {entry} {port} {retries} {showScript (Spec.scriptX cfg st)}"
+    let inDomain := Spec.wfX cfg st
+    let wf := if inDomain then "" else " NOTWF"
     let want := if vars then showRes showMap (.ok (Spec.expectedVars st)) else showRes showGs3Response (.ok (Spec.expected st))
     line ++ " ## WANT " ++ want ++ wf
-      ++ " ## SENT " ++ String.intercalate "," ((Spec.requests cfg).map hexOf)
-      ++ " ## SEG " ++ toString (Spec.script cfg st).length
-      ++ " ## NPK " ++ toString (Spec.dataPackets cfg st).length
+      ++ " ## SENT " ++ String.intercalate "," ((Spec.requestsX cfg).map hexOf)
+      ++ " ## SEG " ++ toString (Spec.scriptX cfg st).length
+      ++ " ## NPK " ++ toString (Spec.dataPacketsX cfg st).length
+      -- extra sections carried, and whether the case is inside the domain of `C04_gs3_query_extra` (`wfX`)
+      ++ " ## NX " ++ toString (Spec.extrasOf cfg.layout.flatten).length
+      ++ " ## THM " ++ (if inDomain then "1" else "0")
 
 end Gd.Run
